@@ -418,9 +418,10 @@ NAME_POOL = ["a", "b", "ab", "s 1", "yes", "null", "1e3", "2020-01-01", " x ", "
 TUPLE_ITEMS = ["1", "2.5", "a", "x y", "", "(p)", "yes", "1e3", "\u00e9", "a:b", "[z]", "'"]
 INTS = [0, 1, -1, 7, 42, -300, 2 ** 31, -2 ** 63, 10 ** 30]
 FLOATS = [0.0, -0.0, 1.5, -2.25, 0.1, 1e16, 1e-7, 3.141592653589793, 1e300, 5e-324, 100.0]
-DATES = ["2020-01-02", "1999-12-31", "2024-02-29", "1970-01-01", "2100-06-15"]
+DATES = ["2020-01-02", "1999-12-31", "2024-02-29", "1970-01-01", "2100-06-15", "0987-06-05", "0005-01-02"]
 TIMES = ["00:00:00", "03:04:05", "13:04:05", "23:59:59", "12:00:00"]
-DATETIMES = ["2020-01-02 03:04:05", "1999-12-31 23:59:59", "2024-02-29 00:00:00", "1970-01-01 12:30:00"]
+DATETIMES = ["2020-01-02 03:04:05", "1999-12-31 23:59:59", "2024-02-29 00:00:00", "1970-01-01 12:30:00",
+             "0987-06-05 04:03:02", "0005-01-02 03:04:05"]
 STRLIKE = ["string", "text", "url", "person"]
 
 
